@@ -39,6 +39,20 @@ class AllocTraceExecutor(TraceExecutor):
         yield from super()._free_physical_qubit(subroutine_id, address)
         self.events.append(["F", address])
 
+    on_request = None
+
+    def _do_create_epr(self, **kw):
+        r = super()._do_create_epr(**kw)
+        if self.on_request is not None:
+            self.on_request()
+        return r
+
+    def _do_recv_epr(self, **kw):
+        r = super()._do_recv_epr(**kw)
+        if self.on_request is not None:
+            self.on_request()
+        return r
+
     def _do_meas(self, subroutine_id, q_address):
         r = super()._do_meas(subroutine_id, q_address)
         self.events.append(["U", q_address])
@@ -61,31 +75,80 @@ class AllocTraceExecutor(TraceExecutor):
         self.events.append(["U2", address1, address2])
 
 
+SLOW = 50000  # generation duration (goodness field) that fails min_fidelity_all_at_end=80 (28000 us)
+FAST = 100
+
+
 class QConn(PipelineConnection):
-    """Delivers one OK-K response per wait poll to the oldest open request."""
+    """Scripted link layer.  `schedule`:
+      lazy  - one OK-K response per wait poll, for the oldest open request (the link layer never
+              runs ahead of the subroutine)
+      burst - up to two responses per wait poll
+      eager - all responses of a request as soon as the request is issued (the link layer runs
+              ahead; responses whose destination id is still in use are deferred by the
+              controller and retried at every wait poll)
+    `goodness_plan`: generation durations, one per issued request (default FAST)."""
 
     bell = 0  # Bell state index of every delivered pair (0 = Phi+)
     bells = None  # optional iterator of Bell state indices
+    schedule = "lazy"
 
-    def on_wait(self):
+    def _open_requests(self):
         ex = self.executor
         for reqs, flag in ((ex._epr_create_requests, 0), (ex._epr_recv_requests, 1)):
             for key, lst in list(reqs.items()):
-                if not lst:
-                    continue
-                remote, purpose = key
-                for p in count(0):
-                    if p not in ex._used_physical_qubit_addresses:
-                        break
-                b = self.bell if self.bells is None else next(self.bells)
-                ex._handle_epr_response(LinkLayerOKTypeK(
-                    logical_qubit_id=p, directionality_flag=flag, purpose_id=purpose,
-                    remote_node_id=remote, bell_state=BellState(b), create_id=0, sequence_number=0))
-                if ex._pending_epr_responses:
-                    ex._pending_epr_responses.clear()
-                    raise Blocked("delivery target is allocated")
-                return True
-        return False
+                for cmd in lst:
+                    yield key, flag, cmd
+
+    def _send(self, key, flag, cmd):
+        ex = self.executor
+        remote, purpose = key
+        used = set(ex._used_physical_qubit_addresses) | set(self._promised)
+        for p in count(0):
+            if p not in used:
+                break
+        self._promised.append(p)
+        b = self.bell if self.bells is None else next(self.bells)
+        self._sent[id(cmd)] = self._sent.get(id(cmd), 0) + 1
+        ex._handle_epr_response(LinkLayerOKTypeK(
+            logical_qubit_id=p, directionality_flag=flag, purpose_id=purpose,
+            remote_node_id=remote, bell_state=BellState(b), create_id=0, sequence_number=0,
+            goodness=self._goodness.get(id(cmd), FAST)))
+
+    def _deliver(self, limit):
+        """send up to `limit` not yet sent responses, oldest request first; returns how many"""
+        n = 0
+        for key, flag, cmd in list(self._open_requests()):
+            while n < limit and self._sent.get(id(cmd), 0) < cmd.tot_pairs:
+                self._send(key, flag, cmd)
+                n += 1
+        return n
+
+    def on_request(self):
+        """called by the executor right after a create/recv request was registered"""
+        for key, flag, cmd in self._open_requests():
+            if id(cmd) not in self._goodness:
+                self._goodness[id(cmd)] = self.goodness_plan.pop(0) if self.goodness_plan else FAST
+                self._keep.append(cmd)
+        if self.schedule == "eager":
+            self._deliver(10 ** 6)
+
+    def on_wait(self):
+        ex = self.executor
+        handled0 = sum(1 for e in ex.events if e[0] == "D")
+        pend0 = len(ex._pending_epr_responses)
+        sent = 0
+        if not ex._pending_epr_responses or self.schedule != "lazy":
+            sent = self._deliver({"lazy": 1, "burst": 2, "eager": 10 ** 6}[self.schedule])
+        if ex._pending_epr_responses:
+            ex._handle_pending_epr_responses()
+        handled1 = sum(1 for e in ex.events if e[0] == "D")
+        # physical ids promised to responses that have been handled are now really in use
+        self._promised = [p for p in self._promised if p not in ex._used_physical_qubit_addresses]
+        if handled1 == handled0 and sent == 0:
+            ex._pending_epr_responses.clear()
+            raise Blocked("no response can be handled" if pend0 else "nothing to deliver")
+        return True
 
 
 GATES1 = ["H", "X", "Z", "T", "S", "K", "Y", "rot"]
@@ -140,7 +203,7 @@ def is_fatal(r):
     return r in FATAL or r.startswith("fault:") or r.startswith("error:")
 
 
-def run_real(cfg, ops, bell=0, bells=None):
+def run_real(cfg, ops, bell=0, bells=None, schedule="lazy"):
     """Returns (snapshots, oracle_notes).  A snapshot is {"r","h","ev","u"} as in the model;
     oracle_notes is a list of (op index, text) where the model-free oracle is violated."""
     reset_globals()
@@ -155,6 +218,10 @@ def run_real(cfg, ops, bell=0, bells=None):
     conn = QConn("alice", executor=ex, max_qubits=n, epr_sockets=[sock], **kw)
     conn.bell = bell
     conn.bells = bells
+    conn.schedule = schedule
+    conn.goodness_plan = []
+    conn._goodness, conn._sent, conn._promised, conn._keep = {}, {}, [], []
+    ex.on_request = conn.on_request
     mm = conn.builder._mem_mgr
     handles = []
     seen = set()
